@@ -25,6 +25,8 @@ def run(ctx):
         p = c["prog"]
         d = eng.write(cid, pretty(p))
         res = {"native": eng.native(d), "vm": eng.vm(d), "src": pretty(p)}
+        eng.emit(d)                                   # the stored module run by the stand-alone nano_vm (its own exit path)
+        res["nano_vm"] = eng.nano_vm(d) if os.path.exists(os.path.join(d, "p.nvm")) else eng.vm(d)
         q = copy.deepcopy(p)
         q["shadows"] = [{"fn": "body", "b": [Assert(Bin("==", Call("body"), I(0)))]}]
         d2 = eng.write(cid + ".sh", pretty(q))
@@ -41,7 +43,7 @@ def run(ctx):
     for cid, c in cases.items():
         want = render_out(c["out"]).encode()
         rr = runs[cid]
-        for engine in ("native", "vm", "interp") + (("vm_asan",) if asan else ()):
+        for engine in ("native", "vm", "nano_vm", "interp") + (("vm_asan",) if asan else ()):
             x = rr[engine]
             if engine == "native":
                 if not x["exe"]:
